@@ -611,9 +611,11 @@ func (m c13) cliIOErrors(c *fw.Ctx, env *cli.Env, args []string, input, refOut [
 			fr := senv.Run(sargs, input, nil, to)
 			tb, _ := os.ReadFile(tr)
 			if !bytes.Contains(tb, []byte("(INJECTED)")) {
+				// (no break: every shard must draw the same number of shared
+				// sequence numbers, whichever cases it owns.)
 				c.Skip("fewer writes on the cache entry than the injection index")
 				c.Count(enc, false)
-				break
+				continue
 			}
 			c.Count(enc, true)
 			c.Hook("io-error-injected:" + errno)
